@@ -793,7 +793,7 @@ func (fr *Frame) siteClauses(in ssa.Instruction, c *ssa.CallCommon, display stri
 		prefix = fr.fn.Name() + ":"
 	}
 	var matched []SiteSpec
-	for _, s := range top.Sites {
+	for si, s := range top.Sites {
 		pat := s.Callee
 		if prefix != "" {
 			if !strings.HasPrefix(pat, prefix) {
@@ -812,6 +812,7 @@ func (fr *Frame) siteClauses(in ssa.Instruction, c *ssa.CallCommon, display stri
 		s2 := s
 		s2.Callee = pat
 		matched = append(matched, s2)
+		ex.markSite(si)
 	}
 	if len(matched) == 0 {
 		if isWriteSink(display) && !ex.sweepOnly {
@@ -889,6 +890,7 @@ func (fr *Frame) siteClausesNamed(in ssa.Instruction, display string, pos token.
 		if !clauseApplies(s.Cl, ex.Prop) || s.Callee != display {
 			continue
 		}
+		ex.markSite(i)
 		ec := fr.evalCtx(fr.curMem, fr.entryMem)
 		ec.at = in
 		ec.goal = true
@@ -1590,4 +1592,11 @@ func (ex *Exec) ghostWrittenOnlyByTop(mn string) bool {
 		}
 	}
 	return true
+}
+
+func (ex *Exec) markSite(i int) {
+	if ex.siteMatched == nil {
+		ex.siteMatched = map[int]bool{}
+	}
+	ex.siteMatched[i] = true
 }
